@@ -521,6 +521,8 @@ def rule_pack(c, prog):
 
 
 def run(c, prog):
+    from . import C01 as _C01
+    _C01.rule_codes(core.Alias(c, "C02"), prog)     # Font's number tables, relied upon by this property's Font arm
     rule_pack(c, prog)
     rule_tags(c, prog)
     rule_float(c, prog)
